@@ -186,11 +186,24 @@ def make_case(rng, idx, nmax):
         F = F - F.T
     dclass = rng.choice(['zero', 'uniform', 'uniform', 'log'])
     dt = 0.0 if dclass == 'zero' else (rng.uniform(0, 10) if dclass == 'uniform' else 10 ** rng.uniform(-4, 1))
+    # integer-typed F (int64 array with the same values) and integer dt, with a fractional Q
+    intF = n <= 6 and rng.random() < 0.12
+    intdt = rng.random() < (0.5 if intF else 0.05)
+    if intdt:
+        dt = float(rng.choice([0, 1, 1, 2, 3, 5, 10]))
+        dclass = 'integer'
     # |F| dt over its whole range: clipped from above at theta, or set to theta exactly (log-uniform)
     theta = rng.choice([0.1, 1.0, 3.0, 10.0, 20.0, 10 ** rng.uniform(-4, math.log10(20.0))])
     nf = float(np.abs(F).sum(axis=0).max()) if n else 0.0
     if nf * dt > theta or (nf * dt > 0 and rng.random() < 0.3):
         F = F * (theta / (nf * dt))
+    if intF:
+        F = np.round(np.clip(F * rng.choice([1.0, 3.0]), -4, 4))
+        if kind == 'skew':
+            F = F - F.T
+        nf = float(np.abs(F).sum(axis=0).max()) if n else 0.0
+        if nf * dt > 24:
+            dt = float(max(1, int(24 // nf))) if intdt else 24.0 / nf
     # Q: PSD of every rank, overall scale log-uniform over 26 decades (sensor noise densities are ~1e-14)
     rk = rng.randint(0, n)
     b = _randn(rng, n, rk) if rk else np.zeros((n, 1))
@@ -205,7 +218,8 @@ def make_case(rng, idx, nmax):
     a = _randn(rng, n, n)
     P0 = a @ a.T * 10 ** rng.uniform(-2, 2)
     return dict(idx=idx, n=n, kind=kind, rankQ=rk, dclass=dclass, F=F, Q=Q, dt=float(dt), parts=parts, P0=P0,
-                order=rng.choice(['C', 'F']), qscale=qscale, lin=2.0 ** rng.randint(-60, 40))
+                order=rng.choice(['C', 'F']), qscale=qscale, lin=2.0 ** rng.randint(-60, 40),
+                intF=bool(intF), intdt=bool(intdt))
 
 
 # ---------------------------------------------------------------------------
@@ -218,34 +232,46 @@ def _n1(a):
 _PADE = [(3, 1.495585217958292e-2), (5, 2.539398330063230e-1), (7, 9.504178996162932e-1), (9, 2.097847961257068)]
 
 
-def _pade_truncation(X, n):
-    """(in_regime, term): the regime of the recorded finding `van-loan-pade-order-tiny-Q`, and the
-    leading truncation term, in the upper-right block, of the low-order Pade approximant that scipy's
-    expm (Al-Mohy & Higham 2009) selects there from d_k = |X^k|^(1/k), k = 4, 6, 8.
-
-    The selection is NORMWISE.  Regime: the dynamics block is nilpotent of index <= 4 ((F dt)^4 = 0:
-    chains of at most four integrators) but (F dt)^3 != 0, so that d_4, d_6, d_8 come from Q alone; a
-    tiny Q then makes them tiny, a low order m is chosen, and the dropped term c_m X^(2m+1)
-    (c_m = (m!)^2 / ((2m)! (2m+1)!), for m = 3: F^3 Q (F^T)^3 dt^7 / 100800) is negligible against
-    |exp X| ~ 1 but NOT against the upper-right block, which is itself of the size of Q.  This is
-    deterministic truncation, not rounding.  Outside this regime the term is NOT part of any tolerance:
-    every other inexactness of Qd is a violation."""
-    if n == 0:
-        return False, 0.0
-    A = X[:n, :n]
-    na = _n1(A)
-    A2 = A @ A
-    A3, A4 = A2 @ A, A2 @ A2
-    if not (na > 0 and _n1(A4) <= 1e-13 * na ** 4 and _n1(A3) > 1e-13 * na ** 3 and X[:n, n:].any()):
-        return False, 0.0
+def _pade_order(X, slack=1.0):
+    """the order scipy's expm (Al-Mohy & Higham 2009) selects from d_k = |X^k|^(1/k); 13 = scaling and squaring"""
     X2 = X @ X
     X4 = X2 @ X2
     X6, X8 = X4 @ X2, X4 @ X4
-    d = {4: _n1(X4) ** 0.25, 6: _n1(X6) ** (1 / 6.0), 8: _n1(X8) ** 0.125}
-    eta = {3: max(d[4], d[6]), 5: max(d[4], d[6]), 7: max(d[6], d[8]), 9: max(d[6], d[8])}
-    worst = 0.0
+    d4, d6, d8 = _n1(X4) ** 0.25, _n1(X6) ** (1 / 6.0), _n1(X8) ** 0.125
+    eta1, eta3 = max(d4, d6), max(d6, d8)
     for m, theta in _PADE:
-        if eta[m] < 2.0 * theta:                 # slack: scipy estimates the norms
+        if (eta1 if m <= 5 else eta3) < slack * theta:
+            return m
+    return 13
+
+
+def _pade_truncation(X, n):
+    """(in_regime, term): the regime of the recorded finding `van-loan-pade-order-tiny-Q`, and the
+    leading truncation term in the upper-right block.
+
+    scipy's expm selects the Pade order NORMWISE from the powers of the whole block matrix X.  Regime: the
+    order selected for X is LOWER than the order selected for the same problem with Q rescaled to the size
+    of F -- i.e. the order is low only because Q is tiny while the powers of F alone vanish or decay
+    (nilpotent-chain-like dynamics: integrator chains, the INS error equations), although Qd is linear
+    in Q.  The dropped term c_m X^(2m+1) (c_m = (m!)^2 / ((2m)! (2m+1)!); m = 3: F^3 Q (F^T)^3 dt^7 / 100800)
+    is then negligible against |exp X| ~ 1 but NOT against the upper-right block, which is itself of the
+    size of Q.  This is deterministic truncation, not rounding.  Outside this regime the term is NOT part
+    of any tolerance: every other inexactness of Qd is a violation."""
+    if n == 0:
+        return False, 0.0
+    nf, nq = _n1(X[:n, :n]), _n1(X[:n, n:])
+    if not (nf > 0 and nq > 0):
+        return False, 0.0
+    m_low = _pade_order(X, slack=2.0)                 # slack: scipy estimates the norms
+    if m_low == 13:
+        return False, 0.0
+    Xn = X.copy()
+    Xn[:n, n:] *= max(1.0, nf / nq)
+    if _pade_order(Xn) <= m_low:
+        return False, 0.0
+    worst = 0.0
+    for m, _ in _PADE:
+        if m_low <= m < 13 and _pade_order(X, slack=2.0) <= m <= _pade_order(X, slack=0.5):
             cm = math.factorial(m) ** 2 / (math.factorial(2 * m) * math.factorial(2 * m + 1))
             worst = max(worst, cm * _n1(np.linalg.matrix_power(X, 2 * m + 1)[:n, n:]))
     return worst > 0.0, worst
@@ -295,16 +321,19 @@ def check_case(c, oracle='auto', verbose=False, stats=None):
     Q = np.array(c['Q'], dtype=float, order=order)
     dt = float(c['dt'])
     n = len(F)
-    snap = (F.tobytes(), Q.tobytes())
+    # what the implementation is called with: the same values, possibly integer-typed
+    Fc = np.array(F, dtype=np.int64, order=order) if c.get('intF') else F
+    as_t = (lambda t: int(t)) if (c.get('intdt') and float(dt).is_integer()) else (lambda t: t)
+    snap = (Fc.tobytes(), Q.tobytes())
 
     def call(t):
-        out = kalman.compute_process_matrices(F, Q, t)
+        out = kalman.compute_process_matrices(Fc, Q, as_t(t) if t == dt else t)
         return np.asarray(out[0], float), np.asarray(out[1], float)
     try:
         Phi, Qd = call(dt)
     except Exception as ex:
         return [("compute_process_matrices raised " + type(ex).__name__ + ": " + str(ex)[:200], {})], math.inf
-    if (F.tobytes(), Q.tobytes()) != snap:
+    if (Fc.tobytes(), Q.tobytes()) != snap:
         fails.append(("inputs were modified by compute_process_matrices", dict(order=order)))
     if Phi.shape != (n, n) or Qd.shape != (n, n) or not (np.isfinite(Phi).all() and np.isfinite(Qd).all()):
         return fails + [("output shape / non-finite output", {})], math.inf
@@ -334,7 +363,7 @@ def check_case(c, oracle='auto', verbose=False, stats=None):
     lin = float(c.get('lin') or 0.0)
     if lin and Q.any():
         try:
-            out = kalman.compute_process_matrices(F, Q * lin, dt)
+            out = kalman.compute_process_matrices(Fc, Q * lin, as_t(dt))
             Phi2, Qd2 = np.asarray(out[0], float), np.asarray(out[1], float)
         except Exception as ex:
             fails.append((f"compute_process_matrices raised {type(ex).__name__} for Q scaled by {lin!r}", {}))
@@ -379,7 +408,7 @@ def check_case(c, oracle='auto', verbose=False, stats=None):
 # ---------------------------------------------------------------------------
 
 def _hexcase(c):
-    out = {k: c[k] for k in ('idx', 'n', 'kind', 'rankQ', 'dclass', 'order', 'qscale', 'lin', 'exact_nmax') if k in c}
+    out = {k: c[k] for k in ('idx', 'n', 'kind', 'rankQ', 'dclass', 'order', 'qscale', 'lin', 'exact_nmax', 'intF', 'intdt') if k in c}
     for k in ('F', 'Q', 'P0'):
         a = np.asarray(c[k], dtype=float)
         out[k] = [float(v).hex() for v in a.ravel()]
@@ -410,6 +439,7 @@ def numeric_statements(r, count, seed_off, nmax=24, exact_nmax=8):
         r.case((c['n'], c['kind'], c['rankQ'], c['dclass'], len(c['parts']), i),
                sample=dict(n=c['n'], F=c['kind'], rankQ=c['rankQ'], dt=c['dt'], substeps=len(c['parts'])))
         for k in (f"n={c['n']}", 'F:' + c['kind'], 'dt:' + c['dclass'], f"substeps={len(c['parts'])}",
+                  'dtype F:' + ('int64' if c.get('intF') else 'float64'),
                   f"Qscale=1e{int(math.floor(math.log10(c['qscale']) / 4) * 4)}..",
                   'Q:' + ('zero' if c['rankQ'] == 0 else 'singular' if c['rankQ'] < c['n'] else 'full')):
             dist[k] = dist.get(k, 0) + 1
